@@ -84,6 +84,7 @@ fn strat(t: Tier) -> proptest::strategy::BoxedStrategy<ValidCase> {
 
 pub fn def() -> PropertyDef {
     PropertyDef {
+        fuzz_targets: &[],
         id: "C01",
         level: "exploration",
         rule: "valid A/V call histories (4 codecs x none/AAC(6)/Opus x fast-start x metadata, B-frame reordering, 3/4-byte start codes, \
